@@ -107,8 +107,8 @@ pub fn generate_on_fresh_thread(src: &str, targets: &[Target]) -> Vec<Result<Str
     let src = src.to_string();
     let targets = targets.to_vec();
     let n = targets.len();
-    let h = std::thread::Builder::new().stack_size(16 << 20).spawn(move || {
-        mclib::engine::install_quiet_panic_hook();
+    // (the quiet panic hook is process-global: nothing to install here)
+    let h = std::thread::Builder::new().spawn(move || {
         match front_end(&src) {
             Ok(c) => targets.iter().map(|t| generate(&c, *t)).collect::<Vec<_>>(),
             Err(e) => targets.iter().map(|_| Err(format!("front end: {e}"))).collect(),
